@@ -118,6 +118,8 @@ def universe(rng: np.random.Generator) -> dict[str, Any]:
         'v4': S((4,), dt),
         'm23': S((2, 3), dt),
         'm32': S((3, 2), dt),
+        'm22': S((2, 2), dt),
+        'm33': S((3, 3), dt),
         't213': S((2, 1, 3), dt),
         't223': S((2, 2, 3), dt),
         'list_eq': [S((3,), dt), S((3,), dt)],
@@ -708,6 +710,8 @@ def _expr_kind(rng: Any, kind: str, s: Any, b: Budget, depth: int) -> Any:
             others.append(o)
         if not others:
             return a
+        if rng.integers(5) == 0:
+            others.append(pick(rng, [a] + others))   # the same operator instance twice in one sum
         form = int(rng.integers(4))
         if form == 0:
             out = a
